@@ -441,3 +441,221 @@ def make(entry, cap, any_cap=False):
     if cap not in entry.caps and not (any_cap and entry.parametric and cap >= 2):
         raise MachineryError("%s cannot be built with capacity %d" % (entry.name, cap))
     return {"callee": CalleeDut, "enrdy": EnRdyDut, "valrdy": ValRdyDut, "cl": CLDut}[entry.iface](entry, cap)
+
+
+# --------------------------------------------------------------------------------------------
+# CL queues with callers that sample rdy() in one block and call the method in a LATER block
+# --------------------------------------------------------------------------------------------
+# M(q.enq) / M(q.deq) only order blocks that call the method itself; a block that only calls q.enq.rdy() is
+# ordered by M(q.enq.rdy) alone.  The tops below split the producer ("p"), the consumer ("c") or both ("pc")
+# into a sampling block (p1 / c1) and a calling block (p2 / c2) with U(p1) < U(p2), U(c1) < U(c2); the legal-driver
+# rule stays: the method is only called in a cycle in which the rdy sampled THAT cycle was true.  Every linear
+# extension of pymtl3's own constraint set over these blocks (and the queue's own update blocks) is forced as the
+# schedule, so no legal tie-break of the scheduler is left untried.
+
+SPLIT_SHAPES = ("p", "c", "pc")
+_SPLIT_TOP = None
+
+
+def _cl_split_top_class():
+    from pymtl3 import Component, U, update_once
+
+    class C17CLSplitTop(Component):
+        def construct(s, QType, num_entries, shape):
+            s.dut = QType(num_entries)
+            s.eo = False
+            s.m = None
+            s.do = False
+            s.s_enq_rdy = None          # enq.rdy() as sampled this cycle
+            s.s_deq_rdy = None
+            s.r_enq_xfer = False
+            s.r_deq_xfer = False
+            s.r_deq_msg = None
+            s.order = []
+
+            if "p" in shape:
+                @update_once
+                def up_c17_p1():
+                    s.order.append("p1")
+                    s.s_enq_rdy = bool(s.dut.enq.rdy())
+
+                @update_once
+                def up_c17_p2():
+                    s.order.append("p2")
+                    s.r_enq_xfer = False
+                    if s.eo and s.s_enq_rdy:
+                        s.dut.enq(s.m)
+                        s.r_enq_xfer = True
+
+                s.add_constraints(U(up_c17_p1) < U(up_c17_p2))
+            else:
+                @update_once
+                def up_c17_p():
+                    s.order.append("p1")
+                    s.s_enq_rdy = bool(s.dut.enq.rdy())
+                    s.order.append("p2")
+                    s.r_enq_xfer = False
+                    if s.eo and s.s_enq_rdy:
+                        s.dut.enq(s.m)
+                        s.r_enq_xfer = True
+
+            if "c" in shape:
+                @update_once
+                def up_c17_c1():
+                    s.order.append("c1")
+                    s.s_deq_rdy = bool(s.dut.deq.rdy())
+
+                @update_once
+                def up_c17_c2():
+                    s.order.append("c2")
+                    s.r_deq_xfer = False
+                    s.r_deq_msg = None
+                    if s.do and s.s_deq_rdy:
+                        s.r_deq_msg = s.dut.deq()
+                        s.r_deq_xfer = True
+
+                s.add_constraints(U(up_c17_c1) < U(up_c17_c2))
+            else:
+                @update_once
+                def up_c17_c():
+                    s.order.append("c1")
+                    s.s_deq_rdy = bool(s.dut.deq.rdy())
+                    s.order.append("c2")
+                    s.r_deq_xfer = False
+                    s.r_deq_msg = None
+                    if s.do and s.s_deq_rdy:
+                        s.r_deq_msg = s.dut.deq()
+                        s.r_deq_xfer = True
+
+        def line_trace(s):
+            return ""
+
+    return C17CLSplitTop
+
+
+def _split_interesting(f):
+    n = getattr(f, "__name__", "")
+    return n.startswith("up_c17_") or not n.startswith("s_")     # harness blocks and the queue's own blocks (not nets)
+
+
+def _split_build(entry, cap, shape):
+    """Elaborated top with DAG and a default schedule (not yet prepared for simulation)."""
+    global _SPLIT_TOP
+    from pymtl3.passes.sim.GenDAGPass import GenDAGPass
+    from pymtl3.passes.sim.SimpleSchedulePass import SimpleSchedulePass
+    from pymtl3.passes.sim.WrapGreenletPass import WrapGreenletPass
+    if _SPLIT_TOP is None:
+        _SPLIT_TOP = _cl_split_top_class()
+    cls = getattr(_import(entry.module), entry.cls)
+    top = _SPLIT_TOP(cls, cap, shape)
+    top.elaborate()
+    GenDAGPass()(top)
+    WrapGreenletPass()(top)
+    SimpleSchedulePass()(top)
+    return top
+
+
+def split_orders(entry, shape, limit=64):
+    """All linear extensions (as tuples of block names) of pymtl3's own constraints over the harness blocks and
+    the queue's own update blocks of the split top."""
+    top = _split_build(entry, entry.caps[0], shape)
+    V = list(top._sched.update_schedule)
+    E = {(u, v) for (u, v) in top._dag.all_constraints if u in V and v in V}
+    succ = {v: {w for (u, w) in E if u == v} for v in V}
+    reach = {}
+
+    def closure(v):
+        if v not in reach:
+            reach[v] = set()
+            for w in succ[v]:
+                reach[v] |= {w} | closure(w)
+        return reach[v]
+
+    I = sorted((v for v in V if _split_interesting(v)), key=lambda f: f.__name__)
+    names = [f.__name__ for f in I]
+    if len(set(names)) != len(names):
+        raise MachineryError("split top of %s: block names are not unique: %s" % (entry.name, names))
+    pred = {v.__name__: {u.__name__ for u in I if v in closure(u)} for v in I}
+    out = []
+
+    def rec(done, order):
+        if len(out) >= limit:
+            return
+        if len(order) == len(names):
+            out.append(tuple(order))
+            return
+        for n in names:
+            if n not in done and pred[n] <= done:
+                rec(done | {n}, order + [n])
+
+    rec(frozenset(), [])
+    if not out or len(out) >= limit:
+        raise MachineryError("split top of %s/%s: %d linear extensions" % (entry.name, shape, len(out)))
+    return out
+
+
+class SplitCLDut:
+    """A CL queue behind C17CLSplitTop with the schedule forced to one linear extension of pymtl3's constraints."""
+
+    def __init__(self, entry, cap, shape, order):
+        from pymtl3.passes.sim.PrepareSimPass import PrepareSimPass
+        self.entry, self.cap, self.shape, self.forced = entry, cap, shape, tuple(order)
+        top = _split_build(entry, cap, shape)
+        sched = list(top._sched.update_schedule)
+        by = {f.__name__: f for f in sched if _split_interesting(f)}
+        if set(by) != set(order):
+            raise MachineryError("split top of %s: blocks %s, forced order %s" % (entry.name, sorted(by), order))
+        new = [f for f in sched if not _split_interesting(f)] + [by[n] for n in order]
+        pos = {f: i for i, f in enumerate(new)}
+        for (u, v) in top._dag.all_constraints:
+            if u in pos and v in pos and pos[u] > pos[v]:
+                raise MachineryError("split top of %s: forced order %s breaks the constraint %s < %s"
+                                     % (entry.name, order, u.__name__, v.__name__))
+        top._sched.update_schedule = new
+        PrepareSimPass(print_line_trace=False)(top)
+        top.sim_reset()
+        self.top = top
+        del top.order[:]
+        top.sim_tick()                              # one idle cycle: the order in which rdy is sampled / methods are called
+        self.sample_order = tuple(top.order)
+        o = self.sample_order
+        if sorted(o) != ["c1", "c2", "p1", "p2"] or o.index("p1") > o.index("p2") or o.index("c1") > o.index("c2"):
+            raise MachineryError("split top of %s: blocks ran as %s" % (entry.name, o))
+
+    def effective_kind(self):
+        """The kind the sampled ready values follow.  The library orders the enq / deq METHODS of a pipe (bypass)
+        queue; a block that only samples enq.rdy() (deq.rdy()) is not ordered against the other side.  Where the
+        schedule runs it before the other side's method call it sees the start-of-cycle occupancy: the queue then
+        is, for this caller, a normal queue -- the only other outcome the constraints admit."""
+        o, k = self.sample_order, self.entry.kind
+        if k == "pipe" and o.index("p1") < o.index("c2"):
+            return "normal"
+        if k == "bypass" and o.index("c1") < o.index("p2"):
+            return "normal"
+        return k
+
+    def count(self):
+        return len(self.top.dut.queue)
+
+    def sig(self):
+        return ()
+
+    def signames(self):
+        return []
+
+    def reset(self):
+        raise MachineryError("CL queues have no reset behaviour")
+
+    def cycle(self, eo, m, do):
+        t = self.top
+        t.eo, t.m, t.do = bool(eo), (m if eo else None), bool(do)
+        t.s_enq_rdy = t.s_deq_rdy = None
+        cnt = self.count()
+        del t.order[:]
+        t.sim_tick()
+        t.eo, t.do, t.m = False, False, None
+        obs = {"enq_rdy": t.s_enq_rdy, "deq_rdy": t.s_deq_rdy, "enq_xfer": t.r_enq_xfer, "deq_xfer": t.r_deq_xfer,
+               "deq_msg": _i(t.r_deq_msg) if t.r_deq_xfer else None, "count": cnt, "count2": self.count()}
+        if tuple(t.order) != self.sample_order:
+            obs["illegal"] = "block-order-changed"
+        return obs
